@@ -770,8 +770,9 @@ impl Context {
     }
 
     /// Register a new enum type
-    pub fn begin_enum(&mut self, name: Located<String>) -> Result<ir::EnumId, ir::TypeId> {
+    pub fn begin_enum(&mut self, name: Located<String>) -> TyperResult<ir::EnumId> {
         let namespace = self.get_current_namespace();
+        let name_for_error = name.clone();
 
         let id = self
             .module
@@ -808,8 +809,19 @@ impl Context {
 
             // Check for existing symbols
             for symbol in &*existing_symbols {
-                if let ScopeSymbol::Type(id) = symbol {
-                    return Err(*id);
+                match symbol {
+                    ScopeSymbol::Type(id) => {
+                        return Err(TyperError::TypeAlreadyDefined(name_for_error, *id));
+                    }
+                    // Both a namespace and an enum are entered by name so the name can only be one of them
+                    ScopeSymbol::Namespace(_) => {
+                        return Err(TyperError::ValueAlreadyDefined(
+                            name_for_error,
+                            ErrorType::Unknown,
+                            ErrorType::Unknown,
+                        ));
+                    }
+                    _ => {}
                 }
             }
 
